@@ -1,4 +1,4 @@
 (* All equality lemmas generated-code = hand model (tools/bigintgen). *)
 From Verif Require Export Proofs.BigIntEqUtils Proofs.BigIntEqCompress Proofs.BigIntEqMember
   Proofs.BigIntEqAdd Proofs.BigIntEqKeys Proofs.BigIntEqSign Proofs.BigIntEqVerify
-  Proofs.BigIntEqCodec Proofs.BigIntEqHash.
+  Proofs.BigIntEqCodec Proofs.BigIntEqHash Proofs.BigIntEqRecv.
